@@ -162,7 +162,10 @@ def lexer_rules(F, res):
 
 
 def lexer_next(F, res):
-    nx = F.fn("<syntax::lexer::GleamLexer as core::iter::traits::iterator::Iterator>::next")
+    from lib import inline as IL
+    # with private helpers of the lexer module inlined (the span -> range conversion may be a helper)
+    nx = IL.inlined(F, F.fn("<syntax::lexer::GleamLexer as core::iter::traits::iterator::Iterator>::next"),
+                    want=lambda p: p.startswith("syntax::lexer::"), depth=1)
     d = FL.Defs(nx)
     inner_next = [(b, t) for b, t in nx.calls() if (callee(t) or callee_def(t) or "").startswith("<logos::lexer::Lexer")
                   and (callee_def(t) or "").endswith("Iterator::next") or (callee(t) or "").endswith("Iterator>::next") and "logos" in (callee(t) or "")]
@@ -236,8 +239,30 @@ def parse_module_rules(F, res, rule="L3"):
     sh = [PM.short(c) for c in ch_tok]
     ok_tok = sh[:4] == ["Iterator::collect", "Iterator::filter", "IntoIterator::into_iter", "Clone::clone"] and \
         sh[4:] == ["Iterator::collect", "GleamLexer::new"]
-    res.ob(rule, "tokens-filtered-copy", "tokens = tokens_raw.clone().into_iter().filter(pred).collect()",
-           ok_tok, where=pm.loc(), how="chain %s" % sh)
+    # the same written as a loop: `let mut tokens = Vec::new(); for &tok in &tokens_raw { if tok.kind.is_trivia() { continue } tokens.push(tok) }`
+    loop_form = False
+    if not ok_tok and sh == ["Vec::new"]:
+        tl = d.origin_op(rv["ops"][names.index("tokens")]).get("l")
+        pushes = []
+        for b, t in pm.calls():
+            if PM.short(callee(t) or callee_def(t)) == "Vec::push":
+                ro = d.origin_op(t["args"][0])
+                base_ = ro
+                while base_.get("k") == "field":
+                    base_ = base_["base"]
+                if ro.get("l") == tl or base_.get("l") == tl or d.origin_op(t["args"][0]).get("bb") == d.origin_op(rv["ops"][names.index("tokens")]).get("bb"):
+                    pushes.append((b, t))
+        if len(pushes) == 1:
+            b, t = pushes[0]
+            dep_item = FL.depends(F, pm, d, t["args"][1])
+            from_raw = any(c.endswith("Iterator::next") for c in dep_item["calls"]) and any(c.endswith("GleamLexer::new") for c in dep_item["calls"])
+            gs = FL.gates(F, pm, [b], d)
+            not_trivia = any((g.get("callee") or "") == SK + "::is_trivia" and g["allowed"] == [False] for g in gs)
+            in_loop = any(b in pm.natural_loop(tl_, hd_) for tl_, hd_ in pm.back_edges())
+            only_gate = [g for g in gs if (g.get("callee") or "").startswith("syntax::")]
+            loop_form = from_raw and not_trivia and in_loop and len(only_gate) == 1
+    res.ob(rule, "tokens-filtered-copy", "tokens = the elements of tokens_raw, in order, that pass the filter (iterator chain or push loop)",
+           ok_tok or loop_form, where=pm.loc(), how="chain %s%s" % (sh, "; push loop over tokens_raw gated by !is_trivia" if loop_form else ""))
     # the filter predicate is exactly !kind.is_trivia()
     clos = [F.fns[c] for c in F.closures_of(pm.path)]
     ok_pred = False
@@ -252,8 +277,8 @@ def parse_module_rules(F, res, rule="L3"):
                 ao = dd.origin_op(o["t"]["args"][0])
                 arg_ok = ao.get("k") == "field" and ao["proj"][-1].get("n") == "kind"
             ok_pred = arg_ok
-    res.ob(rule, "filter-is-not-trivia", "the filter predicate is `!t.kind.is_trivia()`", ok_pred and len(clos) == 1,
-           where=pm.loc(), how="%d closure(s) in parse_module" % len(clos))
+    res.ob(rule, "filter-is-not-trivia", "the filter predicate is `!t.kind.is_trivia()`", ok_pred and len(clos) == 1 or loop_form,
+           where=pm.loc(), how="%d closure(s) in parse_module%s" % (len(clos), "; loop form: the push is gated by is_trivia() == false only" if loop_form else ""))
     for fld, want in (("pos", ("const", "0")), ("events", ("call", "Vec::new")), ("errors", ("call", "Vec::new"))):
         o = d.origin_op(rv["ops"][names.index(fld)])
         got = (o.get("k"), str(o["c"].get("bits")) if o.get("k") == "const" else PM.short(callee(o["t"])) if o.get("k") == "call" else None)
